@@ -3,7 +3,7 @@
 From Coq Require Import ZArith List Bool String Ascii.
 From Coq.Strings Require Import Byte.
 From EsVerif.Common Require Import Base Bytes.
-From EsVerif.C16 Require Import Model Spec Ext.
+From EsVerif.C16 Require Import Model Spec Ext Deep.
 Local Open Scope list_scope.
 
 (* compact constructors for the printed terms *)
@@ -81,3 +81,19 @@ Definition v_conv_top (ml : bool) (f : conv) (top : list order) (a : arr) (ip ke
           (if uniform_b ml (adt a) && Bool.eqb (doswap_top f ml top) (leaf_decision f ml a)
               && Bool.eqb (doswap_top f ml top2) (leaf_decision f ml (o_res m1))
            then conv_check ml f a ip keep o1 o2 else true).
+
+(* ---- proof-deepening round (Deep.v) *)
+Definition orders_eqb := list_eqb order_eqb.
+(* nested record given as a list of top-level fields: the leaf layout and what the scan sees are computed by
+   the model ([flatten1], [top1]) and must equal what numpy reports ([a_obs] = the leaf view of the real array,
+   [top_obs] = array[name].dtype.base.byteorder of every top-level name) *)
+Definition v_nested1 (ml : bool) (f : conv) (t : list tfield) (top_obs : list order) (a_obs : arr) (ip keep : bool)
+           (o1 o2 : outcome) : Z :=
+  let a := mkA (DStruct (flatten1 t)) (ashape a_obs) (adata a_obs) in
+  Z.lor (verdict (orders_eqb (top1 t) top_obs && arr_eqb a a_obs) true)
+        (v_conv_top ml f (top1 t) a ip keep o1 o2).
+
+(* a whole sequence of calls in one process: the model runs it from the INITIAL objects only (state threaded
+   through the heap) and must reproduce every observed answer *)
+Definition v_heap (ml : bool) (h : heap) (cs : list call) (obs : list answer) : Z :=
+  verdict (list_eqb answer_eqb (run ml h cs) obs) true.
